@@ -43,6 +43,10 @@ func (h Handler) HandleMessage(p stanza.Message, r xmlstream.TokenReadEncoder) e
 	iter := xmlstream.NewIter(r)
 	for iter.Next() {
 		start, child := iter.Current()
+		// Children that are not elements (eg. whitespace) have no start element.
+		if start == nil {
+			continue
+		}
 		if start.Name.Space == NS && (start.Name.Local == "received" || start.Name.Local == "sent") {
 			// Skip the "forwarded" element.
 			_, err := child.Token()
